@@ -166,6 +166,8 @@ type Obligation struct {
 	Result SolveResult
 	File   string
 	Trivial bool // discharged by the simplifier
+	X       *Exec // execution context (for replay)
+	timeout int
 }
 
 func (o *Obligation) OK() bool {
@@ -234,7 +236,11 @@ func Discharge(obls []*Obligation, workdir string, timeoutS int) error {
 			defer wg.Done()
 			par <- struct{}{}
 			defer func() { <-par }()
-			o.Result = Solve(o.File, timeoutS, nil)
+			to := timeoutS
+			if o.timeout > to {
+				to = o.timeout
+			}
+			o.Result = Solve(o.File, to, nil)
 		}(o)
 	}
 	wg.Wait()
